@@ -9,23 +9,23 @@ package miner
 //@ func getValidProofs
 //@   requires no-nil-entries: forall i int :: 0 <= i && i < len(proofs) ==> proofs[i] != nil && (proofs[i].Error == nil ==> proofs[i].Proof != nil && proofs[i].PublicKey != nil)
 //@   ensures only-proofs-without-error: len(result) <= len(proofs) && (forall j int :: 0 <= j && j < len(result) ==> result[j] != nil && result[j].Error == nil && result[j].Proof != nil && result[j].PublicKey != nil)
-//@   loop * invariant kept-so-far: -1 <= #rangeindex && #rangeindex < len(proofs) && len(result) <= #rangeindex + 1 && fresh(result) && (forall j int :: 0 <= j && j < len(result) ==> result[j] != nil && result[j].Error == nil && result[j].Proof != nil && result[j].PublicKey != nil) && (forall i int :: 0 <= i && i < len(proofs) ==> proofs[i] != nil && (proofs[i].Error == nil ==> proofs[i].Proof != nil && proofs[i].PublicKey != nil))
+//@   loop * invariant kept-so-far: 0 <= #iter && #iter <= len(proofs) && len(result) <= #iter && fresh(result) && (forall j int :: 0 <= j && j < len(result) ==> result[j] != nil && result[j].Error == nil && result[j].Proof != nil && result[j].PublicKey != nil) && (forall i int :: 0 <= i && i < len(proofs) ==> proofs[i] != nil && (proofs[i].Error == nil ==> proofs[i].Proof != nil && proofs[i].PublicKey != nil))
 
 //@ func getBindingProofs
 //@   requires template != nil
 //@   requires only-valid-entries: forall i int :: 0 <= i && i < len(proofs) ==> proofs[i] != nil && proofs[i].Error == nil && proofs[i].Proof != nil && proofs[i].PublicKey != nil
 //@   ensures only-valid-proofs-kept: len(result) <= len(proofs) && (forall j int :: 0 <= j && j < len(result) ==> result[j] != nil && result[j].Error == nil && result[j].Proof != nil && result[j].PublicKey != nil)
 //@   ensures only-bound-proofs-kept: forall j int :: 0 <= j && j < len(result) ==> passB(result[j])
-//@   assert-at call PassBinding binding-asked-of-the-template-for-this-proof: unbox("*engine.WorkSpaceProof", arg0) == proofs[#rangeindex + 1]
-//@   loop * invariant kept-so-far: -1 <= #rangeindex && #rangeindex < len(proofs) && len(result) <= #rangeindex + 1 && fresh(result) && (forall j int :: 0 <= j && j < len(result) ==> result[j] != nil && result[j].Error == nil && result[j].Proof != nil && result[j].PublicKey != nil) && (forall i int :: 0 <= i && i < len(proofs) ==> proofs[i] != nil && proofs[i].Error == nil && proofs[i].Proof != nil && proofs[i].PublicKey != nil)
+//@   assert-at call PassBinding binding-asked-of-the-template-for-this-proof: unbox("*engine.WorkSpaceProof", arg0) == proofs[#iter]
+//@   loop * invariant kept-so-far: 0 <= #iter && #iter <= len(proofs) && len(result) <= #iter && fresh(result) && (forall j int :: 0 <= j && j < len(result) ==> result[j] != nil && result[j].Error == nil && result[j].Proof != nil && result[j].PublicKey != nil) && (forall i int :: 0 <= i && i < len(proofs) ==> proofs[i] != nil && proofs[i].Error == nil && proofs[i].Proof != nil && proofs[i].PublicKey != nil)
 //@   loop * invariant bound-so-far: forall j int :: 0 <= j && j < len(result) ==> passB(result[j])
 
 //@ func getQualities
 //@   requires entries-have-proofs: forall i int :: 0 <= i && i < len(proofs) ==> proofs[i] != nil && proofs[i].Proof != nil && proofs[i].PublicKey != nil
 //@   ensures one-verified-quality-per-proof: err == nil ==> len(result0) == len(proofs) && fresh(result0) && (forall j int :: 0 <= j && j < len(proofs) ==> result0[j] != nil && fresh(result0[j]))
-//@   assert-at call VerifiedQuality verified-for-this-challenge-slot-and-height: arg0 == proofs[#rangeindex + 1].Proof && arg1 == lastresult("PubKeyHash") && arg2 == challenge && arg3 == filter && arg4 == slot && arg5 == height
-//@   assert-at call PubKeyHash seed-is-the-proof-public-key: arg0 == proofs[#rangeindex + 1].PublicKey
-//@   loop * invariant qualities-so-far: -1 <= #rangeindex && #rangeindex < len(proofs) && len(qualities) == len(proofs) && fresh(qualities) && (forall j int :: 0 <= j && j <= #rangeindex ==> qualities[j] != nil && fresh(qualities[j]))
+//@   assert-at call VerifiedQuality verified-for-this-challenge-slot-and-height: arg0 == proofs[#iter].Proof && arg1 == lastresult("PubKeyHash") && arg2 == challenge && arg3 == filter && arg4 == slot && arg5 == height
+//@   assert-at call PubKeyHash seed-is-the-proof-public-key: arg0 == proofs[#iter].PublicKey
+//@   loop * invariant qualities-so-far: 0 <= #iter && #iter <= len(proofs) && len(qualities) == len(proofs) && fresh(qualities) && (forall j int :: 0 <= j && j < #iter ==> qualities[j] != nil && fresh(qualities[j]))
 
 //@ spec func usable(ps []*engine.WorkSpaceProof) bool = forall i int :: 0 <= i && i < len(ps) ==> ps[i] != nil && ps[i].Error == nil && ps[i].Proof != nil && ps[i].PublicKey != nil
 
@@ -43,7 +43,7 @@ package miner
 //@   assert-at return#-1 winning-proof-time-and-quality-returned: result0 != nil && result0.proof == lastresult("getBindingProofs")[bestProofIndex] && result0.quality == bestQuality && deref(result0.time) == deref(pocTemplate.Timestamp) && result1 == nil
 //@   loop #1 invariant round-state: bestQuality != nil && pocTemplate != nil && usable(proofs)
 //@   loop #2 invariant slot-state: bestQuality != nil && i == workSlot && usable(proofs)
-//@   loop #3 invariant best-so-far: -1 <= #rangeindex && #rangeindex < len(qualities) && bestQuality != nil && (forall j int :: 0 <= j && j <= #rangeindex ==> bigv[qualities[j]] <= bigv[bestQuality]) && (bigv[bestQuality] > 0 ==> 0 <= bestProofIndex && bestProofIndex <= #rangeindex && qualities[bestProofIndex] == bestQuality) && bigv[bestQuality] >= 0
+//@   loop #3 invariant best-so-far: 0 <= #iter && #iter <= len(qualities) && bestQuality != nil && (forall j int :: 0 <= j && j < #iter ==> bigv[qualities[j]] <= bigv[bestQuality]) && (bigv[bestQuality] > 0 ==> 0 <= bestProofIndex && bestProofIndex < #iter && qualities[bestProofIndex] == bestQuality) && bigv[bestQuality] >= 0
 
 //@ func assembleFullBlock
 //@   assert-at call GetTarget target-at-the-winning-time: arg0 == deref(tProof.time)
